@@ -51,7 +51,7 @@ def machinery_error(prop, tier, msg, out=""):
     sys.exit(2)
 
 
-RACE_PROPS = {"C08": 40, "C11": 60, "C13": 200, "C14": 40, "C15": 100, "C16": 40}
+RACE_PROPS = {"C08": 40, "C11": 60, "C13": 200, "C14": 40, "C15": 100, "C16": 40, "C17": 200}
 
 
 def race_pass(prop, n, modfile, ovdir, outdir):
